@@ -5,7 +5,11 @@ Proof: coq/Props/C17.v over the parent/child op sequences regenerated from fn_de
 Correspondence + stress: harness/w_subproc.py runs the real implementation on scripted callees, 1..8 (quick) / up to 64
 (thorough) concurrent invocations per event loop, children dying in every way at several points; each invocation is
 compared with the model evaluated in Coq (Model/SubprocEval.v; by C17_noninterference_N the model of one invocation is the
-model of each of N) and with the specification (Spec/SubprocSpec.v, evaluated in Coq on the OBSERVED outcome)."""
+model of each of N) and with the specification (Spec/SubprocSpec.v, evaluated in Coq on the OBSERVED outcome).
+Implementation-only input dimensions (judged by the property text directly): `nest` - the callee starts a process of its
+own (nested invocation of the implementation, plain multiprocess.Process) and returns what it computed; `sig` - the
+application has its own SIGTERM/SIGINT dispositions, inherited by every child (the model knows this as beh.b_term_fatal
+and answers with `held`: the parent sits in a synchronous call while the callee computes)."""
 import copy, json, re
 from lib import *
 
@@ -17,7 +21,7 @@ PRE = ('From Coq Require Import List ZArith Bool.\nFrom PV Require Import Base.E
 
 EXC = {'ValueError': [0, 1], 'KeyError': [0, 3, 1], 'TypeError': [0, 2], 'RuntimeError': [0, 6], 'OSError': [0, 11],
        'EOFError': [0, 12], 'ChildProcessError': [0, 11, 0], 'UserError': [0, 20], 'UserErrorSub': [0, 20, 0],
-       'Exception': [0], 'StopIteration': [0, 7],
+       'Exception': [0], 'StopIteration': [0, 7], 'AssertionError': [0, 5], 'AttributeError': [0, 4], 'NameError': [0, 10],
        'KeyboardInterrupt': [1], 'SystemExit': [2], 'GeneratorExit': [3], 'BaseException': []}
 REPORTED = ['ValueError', 'KeyError', 'TypeError', 'RuntimeError', 'OSError', 'EOFError', 'ChildProcessError', 'UserError',
             'UserErrorSub', 'Exception']
@@ -25,6 +29,12 @@ NOT_EXCEPTION = ['KeyboardInterrupt', 'SystemExit', 'GeneratorExit', 'BaseExcept
 DIES = ['os_exit', 'sigkill', 'sigterm']
 KILLS = ['after_fork', 'in_callee', 'mid_send']
 CANCELS = ['before_start', 'in_callee', 'wait_for', 'after_sent']     # cancellation of the awaiting task
+# the callee delegates a part of its work to a process of its own: a nested in_subprocess / calculate_in_subprocess
+# invocation (one / two levels deep) or a plain multiprocess.Process (implementation-only dimension)
+NESTS = ['insub', 'insub2', 'process']
+# the application has its own SIGTERM + SIGINT dispositions while the invocations run, every forked child inherits
+# them: a Python handler that only records the signal / SIG_IGN (implementation-only dimension)
+SIGS = ['handler', 'ignore']
 
 
 def protected_wait():
@@ -43,6 +53,8 @@ KW_POOL = [{}, {'a': 1}, {'a': [1, 2, {'b': None}], 'c': 'x'}, {'n': -5, 's': 'Ã
 KW_COLLIDING = [{'func': 1}, {'tx': 2}, {'fun': 3}, {'fun': None, 'a': 1}, {'func': 'f', 'tx': 0}]
 MSG_K1 = ('the awaiting task raises the exception stored in the SubprocessError its callee RETURNED where the statement '
           'demands the callee\'s return value')
+MSG_K6 = ('the awaiting task learned of the death of its child only after a process which the callee had started had run to '
+          'its own end (the invocation does not terminate when its child dies)')
 LEAKS = ('pipe end of the invocation still open in the parent when the await hands over the outcome',
          'child process not reaped when the await hands over the outcome')
 LEAK_RX = (r'^[+]\d+ open file descriptors in the parent after all awaits returned \(after gc\)$',
@@ -58,8 +70,27 @@ DEMAND = {1: 'the callee\'s return value', 2: 'the callee\'s exception', 3: 'Run
 def mk(rng, **k):
     d = {'out': 'ok', 'exc': EXC['ValueError'], 'die': 'os_exit', 'big': False, 'pick': True, 'async': False, 'reterr': False,
          'kill': 'none', 'via': 'func', 'dur': 0, 'ticks': False, 'nonce': rng.randrange(10 ** 6), 'kw': rng.choice(KW_POOL),
-         'unp': False, 'cancel': 'none'}
+         'unp': False, 'cancel': 'none', 'nest': 'none', 'sig': 'none', 'glife': 0}
     d.update(k)
+    if d['nest'] != 'none' or d['sig'] != 'none':
+        # the open findings (C17-K1 returned SubprocessError, C17-K3 keyword named func) are registered for the plain
+        # input region only (their matchers demand it): not combined with the two implementation-only dimensions
+        d['reterr'] = False
+        if set(d['kw']) & {'func', 'tx', 'fun'}:
+            d['kw'] = {'a': 1}
+    if d['nest'] != 'none':
+        # a child killed from outside while a process IT started is alive (that process holds the inherited write end:
+        # open finding C17-K6) is generated in exactly one shape: glife > 0 (lifetime of that process in ms), one level
+        # of nesting, SIGKILL while the callee waits for it
+        if not (d['glife'] > 0 and d['kill'] == 'in_callee' and d['nest'] in ('insub', 'process')):
+            d['kill'] = 'none'
+            d['glife'] = 0
+        d['cancel'] = 'none'
+        d['unp'] = False
+    else:
+        d['glife'] = 0
+    if d['sig'] != 'none' and d['die'] == 'sigterm':
+        d['die'] = 'sigkill'     # SIGTERM does not terminate a process that handles / ignores it: not a death
     if d['kill'] == 'mid_send':
         d['big'] = True
     if d['cancel'] != 'none':
@@ -89,7 +120,9 @@ def coq_case(inv, r, ref=None):
         obs = f'(FRaise (XCls {coq_list([coq_nat(x) for x in opath])}))'
     killed = bool(r.get('killed')) if r else False
     return (f'eval_case {out} {path} {coq_bool(inv["big"])} {coq_bool(inv["pick"])} {coq_bool(inv["async"])} '
-            f'{coq_bool(inv["reterr"])} {coq_bool(bool(inv.get("unp")) and inv["pick"])} {kw_class(inv)} {kill} '
+            f'{coq_bool(inv["reterr"])} {coq_bool(bool(inv.get("unp")) and inv["pick"])} '
+            # SIGTERM is fatal for the child unless the application's own disposition is inherited (beh.b_term_fatal)
+            f'{coq_bool(inv.get("sig", "none") == "none")} {kw_class(inv)} {kill} '
             f'{coq_bool(killed)} {obs} {coq_list([coq_nat(x) for x in (ref or [])])}')
 
 
@@ -139,6 +172,32 @@ def gen_single(rng, tier, scale):
     invs.append(mk(rng, cancel='in_callee', out='raise', big=True))
     invs.append(mk(rng, out='die', big=True))
     invs.append(mk(rng, out='die', kill='after_fork'))
+    # the callee starts a process of its own (nested invocation of the implementation / plain multiprocess.Process)
+    for nest in NESTS:
+        for asy in both:
+            invs.append(mk(rng, nest=nest, via=rng.choice(['func', 'deco']), ticks=rng.random() < 0.3, **{'async': asy}))
+        invs.append(mk(rng, nest=nest, out='raise', exc=EXC[rng.choice(REPORTED)], big=rng.random() < 0.3,
+                       via=rng.choice(['func', 'deco']), **{'async': rng.random() < 0.5}))
+    invs.append(mk(rng, nest=rng.choice(NESTS), out='die', die=rng.choice(DIES), **{'async': rng.random() < 0.5}))
+    invs.append(mk(rng, nest=rng.choice(NESTS), big=True, via='deco', **{'async': True}))
+    # ... and the child is killed while that process is alive (open finding C17-K6)
+    for nest in ('process', 'insub'):
+        invs.append(mk(rng, nest=nest, glife=rng.choice([1500, 2000, 2500]), kill='in_callee', via=rng.choice(['func', 'deco']),
+                       **{'async': rng.random() < 0.5}))
+    if tier != 'quick':
+        for sig in SIGS:
+            invs.append(mk(rng, nest=rng.choice(['process', 'insub']), glife=2000, kill='in_callee', sig=sig, out=rng.choice(['ok', 'raise']),
+                           big=rng.random() < 0.5, **{'async': rng.random() < 0.5}))
+    # the application has installed its own SIGTERM / SIGINT dispositions (inherited by the child): cancellation
+    # scenarios (the loop must stay live, the cancelled await must end), and plain invocations
+    for sig in SIGS:
+        for can in CANCELS:
+            invs.append(mk(rng, sig=sig, cancel=can, via=rng.choice(['func', 'deco']), **{'async': rng.random() < 0.5}))
+        invs.append(mk(rng, sig=sig, ticks=True, **{'async': rng.random() < 0.5}))
+        invs.append(mk(rng, sig=sig, out='raise', exc=EXC[rng.choice(REPORTED)]))
+        invs.append(mk(rng, sig=sig, out='die', die=rng.choice(DIES)))
+        invs.append(mk(rng, sig=sig, kill=rng.choice(KILLS)))
+        invs.append(mk(rng, sig=sig, nest=rng.choice(NESTS), **{'async': rng.random() < 0.5}))
     # malformed: outside what any implementation can pass through unchanged / the envelope collision
     for asy in both:
         invs.append(mk(rng, out='raise', exc=EXC['StopIteration'], **{'async': asy}))
@@ -152,10 +211,15 @@ def gen_single(rng, tier, scale):
     return [{'invs': [i]} for i in invs]
 
 
-def random_inv(rng, crash=0.35, allow_cancel=True):
+def random_inv(rng, crash=0.35, allow_cancel=True, sig=None):
     r = rng.random()
     k = {'async': rng.random() < 0.5, 'via': rng.choice(['func', 'deco']), 'dur': rng.choice([0, 0, 2, 5, 9, 17, 30]),
          'ticks': rng.random() < 0.35, 'big': rng.random() < 0.2}
+    if sig is None:
+        sig = rng.choice(SIGS) if rng.random() < 0.2 else 'none'
+    k['sig'] = sig
+    if rng.random() < 0.15:
+        k['nest'] = rng.choice(NESTS)
     if r > crash:
         if rng.random() < 0.6:
             return mk(rng, **k)
@@ -190,11 +254,14 @@ def gen_concurrent(rng, tier, scale):
     sizes = sizes * scale
     for n in sizes:
         crash = rng.choice([0.0, 0.2, 0.35, 0.6])
-        invs = [random_inv(rng, crash=crash, allow_cancel=protected_wait()) for _ in range(n)]
+        # signal dispositions are process-wide: one choice per batch (kept in every invocation, so that a shrunk case
+        # still carries it)
+        sig = rng.choice(SIGS) if rng.random() < 0.3 else 'none'
+        invs = [random_inv(rng, crash=crash, allow_cancel=protected_wait(), sig=sig) for _ in range(n)]
         # at least two plain returning invocations with different durations: results must not cross
         a, b = rng.sample(range(n), 2)
-        invs[a] = mk(rng, dur=rng.choice([12, 20, 30]), ticks=True)
-        invs[b] = mk(rng, dur=0, **{'async': True})
+        invs[a] = mk(rng, dur=rng.choice([12, 20, 30]), ticks=True, sig=sig)
+        invs[b] = mk(rng, dur=0, sig=sig, nest=rng.choice(['none', 'none'] + NESTS), **{'async': True})
         n_mid = 0
         for i in invs:      # keep memory/CPU of a batch bounded
             if i['kill'] == 'mid_send':
@@ -233,6 +300,7 @@ def judge_inv(inv, r, m):
         return fails, 'model evaluation failed'
     m_done, m_kind, m_clean, m_killed, spec_obs, demand, uniform = m[:7]
     m_path = m[8:8 + m[7]]
+    m_held = m[8 + m[7]] if len(m) > 8 + m[7] else 0      # the model's parent holds the loop thread while the callee computes
     if not r.get('hang') and code not in (6, 7) and spec_obs != 1:
         fails.append(f'the awaiting task {show(r["final"])} where the statement demands {DEMAND.get(demand)}')
     if code == 5 and r['final'][1] == [4] and inv.get('cancel', 'none') == 'none':
@@ -250,11 +318,21 @@ def judge_inv(inv, r, m):
         fails.append('the callee saw other arguments than the caller passed')
     if r.get('ticks_seen') is False:
         fails.append('the event loop ran no other task while the callee was waiting for it (blocking)')
+    if r.get('nested_ok') is False:
+        fails.append('what the callee\'s own child process computed is not in the outcome the awaiting task got '
+                     '(run directly, the same function does deliver it)')
+    if r.get('grandchild_ended') and r.get('killed') and inv.get('glife', 0) > 0 and inv['kill'] == 'in_callee':
+        fails.append(MSG_K6)
+    if r.get('stalled'):
+        fails.append('the event loop ran no other task while the callee of this invocation was still running '
+                     '(the ticker stood still until the callee gave up)')
     if r.get('wraps_ok') is False:
         fails.append('the decorated function lost its name / is not a coroutine function')
     corr = None
     if not fails:
-        if m_done != 1:
+        if m_held == 1 and inv.get('cancel') in ('in_callee', 'wait_for'):
+            corr = 'the model holds the loop thread in a synchronous call while the callee computes, the implementation was not seen to'
+        elif m_done != 1:
             corr = 'the model does not finish within its fuel'
         elif m_clean != 1:
             corr = 'the model exits with a descriptor or child left'
@@ -337,7 +415,8 @@ def matcher(finding, case, whats=None):
     if len(invs) != 1 or whats is None:
         return False
     i = invs[0]
-    plain = i['pick'] and i['kill'] == 'none' and not i.get('unp') and i.get('cancel', 'none') == 'none'
+    plain = (i['pick'] and i['kill'] == 'none' and not i.get('unp') and i.get('cancel', 'none') == 'none'
+             and i.get('nest', 'none') == 'none' and i.get('sig', 'none') == 'none')
     if m.get('id') == 'callee_returns_subprocess_error':
         return i['reterr'] and i['out'] == 'ok' and plain and kw_class(i) == 'KWNone' and list(whats) == [MSG_K1]
     if m.get('id') == 'payload_cannot_be_unpickled_in_parent':
@@ -347,6 +426,10 @@ def matcher(finding, case, whats=None):
         ok_in = (i.get('cancel') in ('in_callee', 'wait_for', 'after_sent') and i['pick'] and i['kill'] == 'none' and not i.get('unp')
                  and not i['reterr'] and kw_class(i) == 'KWNone')
         return bool(ok_in and whats and all(w in LEAKS or any(re.match(rx, w) for rx in LEAK_RX) for w in whats))
+    if m.get('id') == 'grandchild_holds_write_end':
+        return (i.get('nest', 'none') in ('process', 'insub') and i.get('glife', 0) > 0 and i['kill'] == 'in_callee' and i['pick']
+                and not i.get('unp') and i.get('cancel', 'none') == 'none' and not i['reterr'] and kw_class(i) == 'KWNone'
+                and list(whats) == [MSG_K6])
     if m.get('id') == 'keyword_named_like_parameter':
         cls = kw_class(i)
         exc = {'KWParent': 'TypeError', 'KWChild': 'ChildProcessError'}.get(cls)
@@ -357,7 +440,9 @@ def matcher(finding, case, whats=None):
 
 def size_of(case):
     invs = case['invs']
-    return (len(invs), sum(1 for i in invs if i['kill'] != 'none' or i['out'] != 'ok' or i['big'] or not i['pick'] or i['reterr']))
+    return (len(invs), sum(1 for i in invs if i['kill'] != 'none' or i['out'] != 'ok' or i['big'] or not i['pick'] or i['reterr']),
+            sum(1 for i in invs if i.get('nest', 'none') != 'none') + sum(1 for i in invs if i.get('sig', 'none') != 'none')
+            + sum(1 for i in invs if i.get('cancel', 'none') != 'none'))
 
 
 def run(tier, seed, replay=None):
@@ -384,7 +469,7 @@ def run(tier, seed, replay=None):
         streams = ['single'] * len(s1) + ['concurrent'] * len(s2)
     evals = rn.evaluate(cases)
 
-    hist = {'out': {}, 'exc': {}, 'kill': {}, 'cancel': {}, 'batch_size': {}, 'outcome': {}, 'flags': {}}
+    hist = {'out': {}, 'exc': {}, 'kill': {}, 'cancel': {}, 'nest': {}, 'sig': {}, 'batch_size': {}, 'outcome': {}, 'flags': {}}
 
     def bump(h, k):
         hist[h][str(k)] = hist[h].get(str(k), 0) + 1
@@ -405,6 +490,8 @@ def run(tier, seed, replay=None):
                 bump('exc', next(k for k, v in EXC.items() if v == inv['exc']))
             bump('kill', inv['kill'])
             bump('cancel', inv.get('cancel', 'none'))
+            bump('nest', inv.get('nest', 'none') + ('+killed-while-its-process-lives' if inv.get('glife') else ''))
+            bump('sig', inv.get('sig', 'none') + ('+cancel' if inv.get('sig', 'none') != 'none' and inv.get('cancel', 'none') != 'none' else ''))
             for fl in ('big', 'async', 'reterr', 'ticks'):
                 if inv[fl]:
                     bump('flags', fl)
@@ -413,12 +500,17 @@ def run(tier, seed, replay=None):
             bump('flags', 'via:' + inv['via'])
             if r and 'invs' in r and ii < len(r['invs']) and r['invs'][ii].get('final'):
                 bump('outcome', CODE.get(r['invs'][ii]['final'][0]))
+                if r['invs'][ii].get('nested_ok'):
+                    bump('flags', 'nested-result-delivered')
+                if r['invs'][ii].get('nest_ref') is False:
+                    bump('flags', 'nest-reference-failed(not judged)')
                 if inv['kill'] == 'mid_send' and r['invs'][ii]['final'][0] == 5:
                     bump('flags', 'truncated-message-hit')
-            key = json.dumps([inv.get(k) for k in ('out', 'exc', 'die', 'big', 'pick', 'async', 'reterr', 'kill', 'via', 'ticks', 'cancel', 'unp')]
+            key = json.dumps([inv.get(k) for k in ('out', 'exc', 'die', 'big', 'pick', 'async', 'reterr', 'kill', 'via', 'ticks', 'cancel', 'unp', 'nest', 'sig')] + [bool(inv.get('glife'))]
                              + [len(c['invs']), ii if len(c['invs']) > 1 else 0, inv['nonce'] if len(c['invs']) > 1 else 0])
             ck.note_case(key, nontrivial=(len(c['invs']) > 1 or inv['out'] != 'ok' or inv['big'] or inv['async']
-                                          or inv['kill'] != 'none' or not inv['pick'] or inv['reterr'] or inv.get('cancel', 'none') != 'none'))
+                                          or inv['kill'] != 'none' or not inv['pick'] or inv['reterr'] or inv.get('cancel', 'none') != 'none'
+                                          or inv.get('nest', 'none') != 'none' or inv.get('sig', 'none') != 'none'))
         if r and r.get('reordered'):
             bump('flags', 'batch-completed-out-of-call-order')
         if e['inv_fails'] or e['batch_fails']:
@@ -511,10 +603,16 @@ def run(tier, seed, replay=None):
     ck.assumptions = ['multiprocess start method fork (Linux default): the child inherits the parent process\'s descriptors',
                       'the module globals Process / Pipe of fn_deco_in_subprocess are wrapped by the harness to learn pids and Connection objects',
                       'an exception is "the callee\'s own" iff it has the callee\'s class and carries the invocation token',
+                      'a loop thread that is held is recognised by the callee of the invocation: the parent\'s ticker (2 ms period) standing still for '
+                      '%s s while the callee is still running (no durations are compared)' % os.environ.get('PV_C17_STALL', '12'),
+                      'nested delegation is judged only where the same delegation works when run directly in the worker process',
                       'watchdogs: %s s per await (asyncio), +20 s SIGALRM for synchronous blocking; no timing is compared' % os.environ.get('PV_C17_WATCHDOG', '25')]
     return ck.finish(
         rule='single: product of {return, raise x 15 classes, os._exit/SIGKILL/SIGTERM} x {small, >64KiB} x {picklable, not} x {def, async def} x '
              '{calculate_in_subprocess, @in_subprocess} x kill point {none, after fork, inside callee, mid-send} (structured) + random; '
+             'implementation-only dimensions: callee delegates to a process of its own {nested in_subprocess 1 or 2 levels, multiprocess.Process} '
+             'x {def, async def} x {return, raise, die}; application-installed SIGTERM+SIGINT dispositions {recording handler, SIG_IGN} x '
+             '{4 cancellation scenarios, plain, die, external kill, nested} with loop liveness watched by the callee; '
              'concurrent: batches of 2..8 (quick) / 2..64 (thorough) random invocations awaited together; distinct = behaviour tuple '
              '(+ position and nonce inside a batch); non-trivial = anything but a lone small synchronous returning callee',
         checker_cmd='make -C coq Props/C17.vo && coqc -Q coq PV coq/Props/C17.v (Print Assumptions under every theorem)',
